@@ -563,7 +563,17 @@ func (g *GoBackNConn) receivePacketsForever() error { // nolint:gocyclo
 			g.pongTicker.Pause()
 		}
 
-		g.resendTicker.Reset(g.timeoutManager.GetResendTimeout())
+		// Only a response to our own data packets postpones the
+		// retransmission of the queue. Data packets and pings of the
+		// peer say nothing about the fate of our packets, so they must
+		// not hold back the resend ticker: a peer that sends faster
+		// than our resend timeout would otherwise starve it forever.
+		switch msg.(type) {
+		case *PacketACK, *PacketNACK:
+			g.resendTicker.Reset(
+				g.timeoutManager.GetResendTimeout(),
+			)
+		}
 
 		switch m := msg.(type) {
 		case *PacketData:
